@@ -430,14 +430,14 @@ Definition as_time (j : jv) : res pstr :=
   | _ => Err EType
   end.
 
-(* v1 _load_to_date for datetime (Python >= 3.11: no Z rewrite) + as_datetime_v1,
-   called WITHOUT a tz argument: fromtimestamp(o, None) *)
+(* v1 _load_to_date for datetime (Python >= 3.11: no Z rewrite) + as_datetime_v1, whose tz
+   argument defaults to timezone.utc: fromtimestamp(o, utc); bool is an int there *)
 Definition load_datetime_v1 (j : jv) : res pstr :=
   match j with
   | JStr s => o_dt_iso O s
-  | JInt z => o_dt_fromts O false (NInt z)
-  | JFloat f => o_dt_fromts O false (NFloat f)
-  | JBool b => o_dt_fromts O false (NInt (if b then 1 else 0))
+  | JInt z => o_dt_fromts O true (NInt z)
+  | JFloat f => o_dt_fromts O true (NFloat f)
+  | JBool b => o_dt_fromts O true (NInt (if b then 1 else 0))
   | _ => Err EType
   end.
 
